@@ -2,9 +2,9 @@ SPECIFICATION Spec
 CONSTANTS
   NConn = 2
   MaxIn = 2
-  MaxSteps = 6
+  MaxSteps = 5
   Classes = {"GoodKA", "BadLine", "BadCL", "TlsHello", "Truncate", "Rest"}
   Racing = FALSE
-  DefectSets = {{}, {"keepbuf"}, {"echo505"}, {"keepbuf", "echo505"}}
+  DefectSets = {{}, {"keepbuf", "echo505"}}
 INVARIANT TypeOK
 CHECK_DEADLOCK FALSE
